@@ -51,7 +51,7 @@ func itoa(n int) string {
 func checkC11(h *harness.H, ci interface{}) *harness.Failure {
 	c := ci.(*caseText)
 	req := &wire.Req{Op: "parse", Text: c.Text}
-	res := h.Call(0, req, 5*time.Second+2*parseBound(len(c.Text)))
+	res := h.Call(0, req, 20*time.Second+20*parseBound(len(c.Text)))
 	nontrivial := ""
 	if res.Outcome != pool.OK || (res.Resp != nil && !res.Resp.ParseOK && len(c.Text) > 0) || len(c.Text) > 10000 {
 		nontrivial = c.Text
@@ -122,7 +122,7 @@ func checkC11(h *harness.H, ci interface{}) *harness.Failure {
 		return &harness.Failure{Inconclusive: true, Msg: res.Stderr}
 	}
 	// crash or hang: confirm alone with a 6x larger bound
-	r2 := h.Alone(req, 30*time.Second+6*parseBound(len(c.Text)))
+	r2 := h.Alone(req, 60*time.Second+60*parseBound(len(c.Text)))
 	if r2.Outcome == pool.OK {
 		h.S.Count("crash_or_hang_not_reproduced")
 		return &harness.Failure{Inconclusive: true, Msg: "not reproduced alone"}
@@ -133,7 +133,7 @@ func checkC11(h *harness.H, ci interface{}) *harness.Failure {
 	}
 	what := "the parser crashed the host process"
 	if r2.Outcome == pool.Hang {
-		what = "the parser did not return within " + (30*time.Second + 6*parseBound(len(c.Text))).String()
+		what = "the parser did not return within " + (60*time.Second + 60*parseBound(len(c.Text))).String()
 	}
 	return harness.Failf("%s (kind %s, %d bytes)\ninput: %q\nstderr: %s", what, c.Kind, len(c.Text), short(c.Text, 400), harness.Brief(r2.Stderr))
 }
